@@ -6,7 +6,7 @@
    (`sort_ok`: returns a sorted permutation) — the real code sorts with an unstable parallel sort.
    `listed`/`listings`/`total_spec` (Spec.v) read only the `packs` sections of the files. *)
 From Verif.Base Require Import Tactics.
-From Verif.C17 Require Import Base17 Extracted Sorts Model Spec ProofsSearch ProofsCollect Proofs Exec ProofsExec ProofsTypes ProofsIter.
+From Verif.C17 Require Import Base17 Extracted Sorts Model Spec ProofsSearch ProofsCollect Proofs Exec ProofsExec ProofsTypes ProofsIter ProofsDeep.
 Local Open Scope N_scope.
 
 (* A lookup by (type, id) succeeds exactly when some index file lists, in `packs`, a pack of
@@ -25,7 +25,7 @@ Theorem get_id_is_a_listing : forall sort_e sort_i,
   forall m files ix, index_of_with sort_e sort_i m files = Some ix ->
   forall t id t' pk lc, get_id ix t id = Some (t', pk, lc) ->
     t' = t /\ In (pk, lc) (listings files t id).
-Proof. exact get_id_listing_lemma. Qed.
+Proof. exact get_id_listing_dbg. Qed.
 Print Assumptions get_id_is_a_listing.
 
 (* get_id succeeds exactly when has does wherever full entries are kept (so the two indexing
@@ -36,14 +36,14 @@ Theorem get_id_some_iff_has : forall sort_e sort_i,
   forall m files ix, index_of_with sort_e sort_i m files = Some ix ->
   forall t id, is_some (get_id ix t id) =
                match m, t with Full, _ => has ix t id | _, Tree => has ix t id | _, Data => false end.
-Proof. exact get_id_some_lemma. Qed.
+Proof. exact get_id_some_dbg. Qed.
 Print Assumptions get_id_some_iff_has.
 
 (* Size totals equal the sum of the listed pack sizes (explicit size, else header-derived size),
    per type, in every mode. *)
 Theorem total_size_sum : forall sort_e sort_i m files ix, index_of_with sort_e sort_i m files = Some ix ->
   forall t, total_size ix t = total_spec files t.
-Proof. exact total_size_lemma. Qed.
+Proof. exact total_size_dbg. Qed.
 Print Assumptions total_size_sum.
 
 (* The reduced modes answer presence identically for what they retain: trees in every mode,
@@ -52,7 +52,7 @@ Theorem mode_agreement : forall sort_e sort_i,
   sort_ok e_id sort_e -> sort_ok (fun x => x) sort_i ->
   forall m files ix, index_of_with sort_e sort_i m files = Some ix ->
   forall t id, has ix t id = retains m t && listed files t id.
-Proof. exact has_char. Qed.
+Proof. exact has_char_dbg. Qed.
 Print Assumptions mode_agreement.
 
 (* No panic on inputs whose computed pack sizes fit u32. *)
@@ -106,6 +106,136 @@ Proof.
 Qed.
 Print Assumptions into_iter_roundtrip.
 
+(* ================================================================== deepening *)
+
+(* The index exists (the checked build does not panic) EXACTLY when every header-derived pack size
+   fits u32 and each type has at most 2^32 packs. *)
+Theorem index_defined_iff_sizes_fit : forall sort_e sort_i m files,
+  (exists ix, index_of_with sort_e sort_i m files = Some ix) <-> no_overflow files = true.
+Proof. exact index_defined_iff_lemma. Qed.
+Print Assumptions index_defined_iff_sizes_fit.
+
+(* The u64 accumulator `total_size += u64::from(size)` cannot overflow: with explicit sizes being
+   u32 values, the (unbounded) total of every existing index is below 2^64 — and so is every
+   partial sum, the summands being non-negative. *)
+Theorem total_size_no_overflow : forall sort_e sort_i m files ix,
+  index_of_with sort_e sort_i m files = Some ix ->
+  sizes_are_u32 (unmarked files) = true ->
+  forall t, total_size ix t < 18446744073709551616.
+Proof. exact total_no_overflow_lemma. Qed.
+Print Assumptions total_size_no_overflow.
+
+(* Release build (u32 additions wrap).  The wrapped pack size is the true header-derived size
+   modulo 2^32, and equals the checked one whenever the checked build does not panic. *)
+Theorem pack_size_wrapping_is_mod : forall p,
+  pack_size_wrapping p = match psize p with Some s => s | None => size_spec p mod 4294967296 end.
+Proof. exact pack_size_wrapping_char. Qed.
+Print Assumptions pack_size_wrapping_is_mod.
+
+Theorem pack_size_builds_equal : forall p s, pack_size p = Some s -> pack_size_wrapping p = s.
+Proof. exact pack_size_builds_agree. Qed.
+Print Assumptions pack_size_builds_equal.
+
+(* Whenever the checked build yields an index, the release build yields the same index. *)
+Theorem release_equals_checked : forall sort_e sort_i m files ix,
+  index_of_with sort_e sort_i m files = Some ix ->
+  index_of_release_with sort_e sort_i m files = Some ix.
+Proof. exact builds_agree_lemma. Qed.
+Print Assumptions release_equals_checked.
+
+(* Otherwise the release build still answers lookups exactly as the index files say (it only
+   panics on the pack counter), but reports totals with the wrapped sizes. *)
+Theorem release_build_characterisation : forall sort_e sort_i,
+  sort_ok e_id sort_e -> sort_ok (fun x => x) sort_i ->
+  forall m files,
+    ((exists ix, index_of_release_with sort_e sort_i m files = Some ix) <-> counts_fit files = true) /\
+    forall ix, index_of_release_with sort_e sort_i m files = Some ix ->
+      (forall t id, has ix t id = retains m t && listed files t id) /\
+      (forall t id t' pk lc, get_id ix t id = Some (t', pk, lc) -> t' = t /\ In (pk, lc) (listings files t id)) /\
+      (forall t, total_size ix t = total_release files t) /\
+      (forallb size_fits (unmarked files) = true -> forall t, total_size ix t = total_spec files t).
+Proof.
+  exact (fun se si He Hi m files =>
+    conj (release_defined_iff_lemma se si m files)
+      (fun ix H => conj (release_has_lemma se si He Hi m files ix H)
+                  (conj (release_get_id_lemma se si He m files ix H)
+                  (conj (release_total_lemma se si m files ix H)
+                        (fun Hf t => eq_trans (release_total_lemma se si m files ix H t) (total_release_fits files t Hf)))))).
+Qed.
+Print Assumptions release_build_characterisation.
+
+(* Full-strength total_size_sum does not hold in the release build: *)
+Definition overflow_files : list ifile :=
+  [ {| packs := [ {| pid := 1; blobs := [ {| bid := 1; btpe := Data; bloc := {| off := 0; len := 4294967223; ulen := None |} |} ];
+                     psize := None |} ]; packs_to_delete := [] |} ].
+Theorem release_total_size_sum_refuted :
+  exists ix, index_of Full overflow_files = None /\ index_of_release Full overflow_files = Some ix /\
+    total_spec overflow_files Data = 4294967296 /\ total_size ix Data = 0 /\ has ix Data 1 = true.
+Proof. eexists. vm_compute. repeat split; reflexivity. Qed.
+Print Assumptions release_total_size_sum_refuted.
+
+(* The index `prune` builds for itself (PrunePlan::from_prune_options: IndexType and sections
+   regenerated from commands/prune.rs) retains trees only and is fed BOTH sections of every index
+   file: a tree lookup succeeds exactly when the tree is listed anywhere — in `packs` or in
+   `packs_to_delete` —, get_id returns one of those listings, data lookups never succeed, and
+   the totals (which size prune's PackSizer) count the packs of both sections. *)
+Theorem prune_index_has_iff_listed_anywhere : forall sort_e sort_i,
+  sort_ok e_id sort_e -> sort_ok (fun x => x) sort_i ->
+  forall files ix, prune_index_of_with sort_e sort_i files = Some ix ->
+  forall id,
+    has ix Tree id = listed_anywhere files Tree id /\
+    has ix Data id = false /\
+    get_id ix Data id = None /\
+    is_some (get_id ix Tree id) = has ix Tree id /\
+    (forall t' pk lc, get_id ix Tree id = Some (t', pk, lc) ->
+       t' = Tree /\ In (pk, lc) (listings_in (all_packs files) Tree id)) /\
+    (forall t, total_size ix t = total_in (all_packs files) t).
+Proof. exact prune_index_lemma. Qed.
+Print Assumptions prune_index_has_iff_listed_anywhere.
+
+Theorem listed_anywhere_is_listed_or_marked : forall files t id,
+  listed_anywhere files t id = listed files t id || listed_in (marked files) t id.
+Proof. exact listed_anywhere_split. Qed.
+Print Assumptions listed_anywhere_is_listed_or_marked.
+
+(* The index `check` builds for itself (check_packs: IndexType and sections regenerated from
+   commands/check.rs) IS the Full index of GlobalIndex::new: every theorem above applies to it. *)
+Theorem check_index_is_full_global_index : forall sort_e sort_i files,
+  check_index_of_with sort_e sort_i files = index_of_with sort_e sort_i Full files.
+Proof. exact (fun _ _ _ => eq_refl). Qed.
+Print Assumptions check_index_is_full_global_index.
+
+(* GlobalIndex level: blob_from_backend reads exactly one listed location — the partial read goes
+   to the listed pack, with cacheable = (type is tree), at the listed offset and length, and the
+   listed uncompressed length is what the decoder gets; `None` (the "not found in index" error)
+   exactly when get_id finds nothing.  Backend read and decryption are arbitrary functions. *)
+Theorem blob_read_uses_listed_location : forall sort_e sort_i, sort_ok e_id sort_e ->
+  forall m files ix, index_of_with sort_e sort_i m files = Some ix ->
+  forall (R : Type) (rp : N -> bool -> N -> N -> R) (dec : R -> option N -> R) t id,
+    match blob_from_backend rp dec ix t id with
+    | Some r => exists pk lc, In (pk, lc) (listings files t id) /\
+                              r = dec (rp pk (is_cacheable t) (off lc) (len lc)) (ulen lc)
+    | None => get_id ix t id = None
+    end.
+Proof. exact blob_from_backend_lemma. Qed.
+Print Assumptions blob_read_uses_listed_location.
+
+(* the typed convenience wrappers are the typed lookups *)
+Theorem typed_wrappers : forall sort_e sort_i,
+  sort_ok e_id sort_e -> sort_ok (fun x => x) sort_i ->
+  forall m files ix, index_of_with sort_e sort_i m files = Some ix ->
+  forall id, has_tree ix id = listed files Tree id /\
+             has_data ix id = retains m Data && listed files Data id /\
+             get_tree ix id = get_id ix Tree id /\ get_data ix id = get_id ix Data id.
+Proof.
+  exact (fun se si He Hi m files ix H id =>
+    conj (eq_trans (has_char_dbg se si He Hi m files ix H Tree id)
+                   (match m as m0 return retains m0 Tree && listed files Tree id = listed files Tree id with
+                    | Full | DataIds | OnlyTrees => eq_refl end))
+         (conj (has_char_dbg se si He Hi m files ix H Data id) (conj eq_refl eq_refl))).
+Qed.
+Print Assumptions typed_wrappers.
+
 (* ------------------------------------------------------------------ non-vacuity *)
 Definition L (o l : N) (u : option N) : loc := {| off := o; len := l; ulen := u |}.
 Definition ex_files : list ifile :=
@@ -146,4 +276,27 @@ Proof. vm_compute. reflexivity. Qed.
 Example ex_into_iter : exists ix, index_of Full ex_files = Some ix /\
   map pid (into_iter ix) = [101; 102; 103; 105] /\
   map (fun p => length (blobs p)) (into_iter ix) = [2; 2; 0; 1]%nat.
+Proof. eexists. vm_compute. repeat split; auto. Qed.
+
+(* prune's index sees the tree that only a marked pack lists; the loader of GlobalIndex does not *)
+Definition ex_marked_tree : list ifile :=
+  [ {| packs := [ {| pid := 201; blobs := [ {| bid := 40; btpe := Tree; bloc := L 0 50 None |} ]; psize := None |} ];
+       packs_to_delete := [ {| pid := 202; blobs := [ {| bid := 41; btpe := Tree; bloc := L 7 60 (Some 99) |} ]; psize := Some 500 |} ] |} ].
+Example ex_prune : exists ixp ixg, prune_index_of ex_marked_tree = Some ixp /\ index_of Full ex_marked_tree = Some ixg /\
+  has ixp Tree 41 = true /\ has ixg Tree 41 = false /\ has ixp Tree 40 = true /\
+  get_id ixp Tree 41 = Some (Tree, 202, L 7 60 (Some 99)) /\
+  total_size ixp Tree = 123 + 500 /\ total_size ixg Tree = 123.
+Proof. do 2 eexists. vm_compute. repeat split; auto. Qed.
+
+(* blob_from_backend with a backend that just records its arguments *)
+Example ex_blob_read : exists ix, index_of Full ex_files = Some ix /\
+  blob_read_request ix Tree 11 = Some {| r_pack := 101; r_cacheable := true; r_off := 50; r_len := 60; r_ulen := Some 200 |} /\
+  blob_read_request ix Data 10 = Some {| r_pack := 102; r_cacheable := false; r_off := 0; r_len := 70; r_ulen := None |} /\
+  blob_read_request ix Data 30 = None.
+Proof. eexists. vm_compute. repeat split; auto. Qed.
+
+(* boundary of the u32 pack size: 36 + 4294967222 + 37 = 2^32 - 1 fits *)
+Example ex_boundary : exists ix,
+  index_of Full [ {| packs := [ {| pid := 1; blobs := [ {| bid := 1; btpe := Data; bloc := L 0 4294967222 None |} ]; psize := None |} ];
+                     packs_to_delete := [] |} ] = Some ix /\ total_size ix Data = 4294967295.
 Proof. eexists. vm_compute. repeat split; auto. Qed.
